@@ -86,6 +86,8 @@ func checkC12(r *Run) {
 		beta := e.File.Msg("Beta", false)
 		beta.Fields = append(beta.Fields, descgen.F("Kind", descgen.Cast(mid+".Kind")))
 		beta.Fields[len(beta.Fields)-1].Number = int32(len(beta.Fields))
+		// the struct package path has capitals, among them the initial of a selected type
+		e.Cfg.DefaultPackageName, e.Cfg.TargetPackageName = "example.com/B2B/"+e.Name, "tfschema"
 		e.Tags = append(e.Tags, "l1-only", "override-chain")
 		return e
 	})
@@ -666,7 +668,7 @@ func checkC16(r *Run) {
 			m := descgen.M("Plain", descgen.F("Name"), descgen.F("Count", descgen.Sc(ir.Int64)), descgen.F("Secret"), descgen.F("Sub", descgen.MsgT("PlainSub")), descgen.F("Subs", descgen.MsgT("PlainSub"), descgen.Rep()))
 			f := &ir.File{Name: "plain16.proto", Package: "plain16", Messages: []*ir.Message{m, sub}}
 			descgen.AutoComments(f)
-			c := &ir.Config{Types: []string{"Plain", "PlainSub"}, Sort: true, SortSet: true, DurationCustomType: "Duration",
+			c := &ir.Config{Types: []string{"Plain", "PlainSub"}, Sort: true, SortSet: true, DurationCustomType: "Duration", DefaultPackageName: "example.com/api/plain16", TargetPackageName: "plaintf",
 				ExcludeFields: []string{"Plain.Subs.Level"}, ComputedFields: []string{"Plain.Count", "PlainSub.Note"},
 				RequiredFields: []string{"Plain.Name", "Plain.Secret"}, SensitiveFields: []string{"Plain.Secret", "PlainSub.Note", "Plain.Name"}}
 			return &descgen.Entry{Name: "plain16", File: f, Cfg: c}
@@ -692,7 +694,8 @@ func checkC16(r *Run) {
 				c.Delivery.Anchors = true
 			case 5:
 				// a list parameter that is present but empty leaves the YAML list in force
-				c.Delivery.Extra = []string{"exclude_fields=", "computed_fields=", "required_fields=", "sensitive=", "types="}
+				// (the same goes for the string options)
+				c.Delivery.Extra = []string{"exclude_fields=", "computed_fields=", "required_fields=", "sensitive=", "types=", "target_package_name=", "default_package_name=", "custom_duration="}
 			case 6:
 				// where the file lives is no part of the configuration: `+` separates list items, not paths
 				c.CfgDir = "cfg-c++/a+b"
@@ -908,6 +911,8 @@ func normLog(s string) []string {
 	}
 	return out
 }
+
+var failedMsgRe = regexp.MustCompile(`failed to build the message ([A-Za-z_][A-Za-z0-9_]*)`)
 
 func checkC18(r *Run) {
 	type mk = func() *descgen.Entry
@@ -1151,6 +1156,19 @@ func checkC18(r *Run) {
 			}
 			if !named {
 				r.violate("no-diagnostic-naming-type/"+fc.kind, f.Name, t, id, "stderr has no new line naming the skipped type "+t, map[string]interface{}{"stderr": tail(string(f.Plugin.Stderr), 12)})
+			}
+		}
+		// a diagnostic that says which message failed must say it of an affected type (the wording is the
+		// generator's own; a line worded otherwise is not judged here)
+		{
+			baseLog := map[string]bool{}
+			for _, l := range normLog(string(fc.base.Plugin.Stderr)) {
+				baseLog[l] = true
+			}
+			for _, l := range normLog(string(f.Plugin.Stderr)) {
+				if m := failedMsgRe.FindStringSubmatch(l); m != nil && !baseLog[l] && !contains(fc.hit, m[1]) {
+					r.violate("diagnostic-names-another-type/"+fc.kind, f.Name, m[1], id, fmt.Sprintf("the diagnostic blames %s, the unmappable field sits below %v: %s", m[1], fc.hit, l), nil)
+				}
 			}
 		}
 		for _, t := range fc.spared {
